@@ -60,6 +60,9 @@ def gen(tier, rng):
                     if st is not None and (a, b) not in ((None, None), (0, n), (-1, None), (None, 0), (n, 0)):
                         continue
                     add(shapes, ca, [["get", "slice", ["s", a, b, st]]], "seq-axis")
+        # an Ellipsis alone, as a tuple (Ellipsis,) and bare (seq[...]: see _impl_step)
+        add(shapes, ca, [["get", "tuple", ["E"]]], "ellipsis-alone")
+        add(shapes, ca, [["get", "tuple", ["E"]], ["get", "tuple", ["E"]]], "ellipsis-alone")
         # explode along every axis of both signs (and out of range)
         for ax in range(-nd, nd):   # valid axes only: behaviour for out-of-range axes is not specified
             add(shapes, ca, [["explode", ax]], "explode")
@@ -173,13 +176,15 @@ def _oracle_step(arrs, ca, op):
     raise ValueError(op)
 
 
-def _impl_step(seq, op):
+def _impl_step(seq, op, key=""):
     if op[0] == "get":
         if op[1] == "int":
-            return seq[op[2]]
+            return seq[Q.np_ints(key, op[2])]
         if op[1] == "slice":
             return seq[Q.dec_item(op[2])]
-        return seq[Q.dec_items(op[2])]
+        if op[2] == ["E"] and len(str(key)) % 2 == 0:
+            return seq[...]                      # the bare form of the same index
+        return seq[Q.np_ints(key, Q.dec_items(op[2]))]
     if op[0] == "explode":
         return seq.explode_along_axis(op[1])
     return seq.data[op[1]].explode_along_axis(op[2])
@@ -213,7 +218,7 @@ def run(case):
     r, exc = seq, None
     try:
         for op in case["ops"]:
-            r = _impl_step(r, op)
+            r = _impl_step(r, op, case["key"])
     except Exception as e:  # noqa
         r, exc = None, exc_name(e)
     if exc is not None:
